@@ -34,12 +34,46 @@ var (
 	StuckCap = 20 * time.Second
 )
 
+// Cmd mirrors the part of exec.Cmd that callers commonly touch.
 type Cmd struct {
 	name string
 	args []string
+	Path string
+	Args []string
+	Dir  string
+	Env  []string
+	// ProcessState is set once the command has run; in the simulator it is the genuine
+	// state of a real process that ended the same way (exit status / killed by a signal).
+	ProcessState *os.ProcessState
 }
 
-func Command(name string, args ...string) *Cmd { return &Cmd{name: name, args: args} }
+func Command(name string, args ...string) *Cmd {
+	return &Cmd{name: name, args: args, Path: name, Args: append([]string{name}, args...)}
+}
+
+// Run is CombinedOutput without the output.
+func (c *Cmd) Run() error { _, err := c.run(true); return err }
+
+var okState *os.ProcessState
+
+func successState() *os.ProcessState {
+	realErrMu.Lock()
+	defer realErrMu.Unlock()
+	if okState == nil {
+		cmd := exec.Command("bash", "-c", "true")
+		cmd.Run()
+		okState = cmd.ProcessState
+	}
+	return okState
+}
+
+func (c *Cmd) setState(err error) {
+	if ee, ok := err.(*exec.ExitError); ok {
+		c.ProcessState = ee.ProcessState
+	} else if err == nil {
+		c.ProcessState = successState()
+	}
+}
 
 // ExitError is what a failed simulated command returns.
 type ExitError struct{ Code int }
@@ -55,13 +89,20 @@ func (c *Cmd) run(combined bool) ([]byte, error) {
 	}
 	if Cur == nil {
 		cmd := exec.Command(c.name, c.args...)
+		cmd.Dir, cmd.Env = c.Dir, c.Env
+		var out []byte
+		var err error
 		if combined {
-			return cmd.CombinedOutput()
+			out, err = cmd.CombinedOutput()
+		} else {
+			out, err = cmd.Output()
 		}
-		return cmd.Output()
+		c.ProcessState = cmd.ProcessState
+		return out, err
 	}
 	if ExecMode == "sim" && SimExec != nil {
 		if out, err, ok := SimExec(c.name, c.args); ok {
+			c.setState(err)
 			return out, err
 		}
 	}
@@ -71,6 +112,7 @@ func (c *Cmd) run(combined bool) ([]byte, error) {
 	// real, synchronous: one visible operation that may touch anything below cwd
 	t := fsOp("exec", []fsAcc{{path: ".", write: true, subtree: true}})
 	cmd := exec.Command(c.name, c.args...)
+	cmd.Dir, cmd.Env = c.Dir, c.Env
 	var out []byte
 	var err error
 	if combined {
@@ -78,6 +120,7 @@ func (c *Cmd) run(combined bool) ([]byte, error) {
 	} else {
 		out, err = cmd.Output()
 	}
+	c.ProcessState = cmd.ProcessState
 	fsDone(t, "exec", strings.Join(c.args, " "), true, []string{"."}, err)
 	return out, err
 }
@@ -109,6 +152,7 @@ func (c *Cmd) runAsync(combined bool) ([]byte, error) {
 	// starting the child is a visible operation
 	tt := fsOp("exec-start", []fsAcc{{path: ".", write: true, subtree: true}})
 	cp := &childProc{cmd: exec.Command(c.name, c.args...), desc: strings.Join(c.args, " ")}
+	cp.cmd.Dir, cp.cmd.Env = c.Dir, c.Env
 	cp.cmd.SysProcAttr = &syscall.SysProcAttr{Setpgid: true}
 	cp.cmd.Stdout = &cp.out
 	if combined {
@@ -133,6 +177,7 @@ func (c *Cmd) runAsync(combined bool) ([]byte, error) {
 	if CrashMode {
 		observeDisk("exec " + cp.desc)
 	}
+	c.ProcessState = cp.cmd.ProcessState
 	return cp.out.Bytes(), cp.err
 }
 
